@@ -11,7 +11,7 @@
 From Coq Require Import QArith.
 From HclV Require Import Base.Prelude Cty.Values Cty.Convert Cty.Ops Eval.Impl Eval.Funcs
                          Eval.UnknownSound_Base Eval.UnknownSound_Known Eval.UnknownSound_Gamma
-                         Eval.UnknownSound_Ops Eval.UnknownSound.
+                         Eval.UnknownSound_Ops Eval.UnknownSound_Fn Eval.UnknownSound_Frag Eval.UnknownSound.
 Open Scope Z_scope.
 
 (* ---- boolean versions of the hypotheses --------------------------------------------------------------------- *)
@@ -26,6 +26,8 @@ Fixpoint in_fragmentb (e : expr) : bool :=
   | EObjKey w _ | EUn _ w | EWrap w | EParen w => in_fragmentb w
   | EAnon => true
   | ECond a b c => in_fragmentb a && in_fragmentb b && in_fragmentb c
+  | ECall _ args _ => forallb in_fragmentb args
+  | EJoin te => in_fragmentb te
   | _ => false
   end.
 
@@ -35,6 +37,8 @@ Proof.
   - apply F_lit. exact H.
   - apply F_scope. exact H.
   - apply andb_true_iff in H as [H1 H2]. apply F_rel; [apply IH; exact H1|exact H2].
+  - apply F_call. induction args as [|x r IHl]; [constructor|]. simpl in H. apply andb_true_iff in H as [H1 H2].
+    constructor; [apply IH; exact H1|apply IHl; exact H2].
   - apply andb_true_iff in H as [H1 H2]. apply andb_true_iff in H1 as [H0 H1].
     apply F_cond; apply IH; assumption.
   - apply andb_true_iff in H as [H1 H2]. apply F_index; apply IH; assumption.
@@ -49,14 +53,15 @@ Proof.
   - apply F_un. apply IH. exact H.
   - apply F_tmpl. induction parts as [|x r IHl]; [constructor|]. simpl in H. apply andb_true_iff in H as [H1 H2].
     constructor; [apply IH; exact H1|apply IHl; exact H2].
+  - apply F_join. apply IH. exact H.
   - apply F_wrap. apply IH. exact H.
   - apply F_paren. apply IH. exact H.
 Qed.
 
 Definition var_relb (p q : list Z * val) : bool :=
   str_eqb (fst p) (fst q) && inv (snd p) && inv (snd q) && gsb (snd p) (snd q).
-(* same frames; function tables are not compared (the fragment has no calls): the harness passes
-   the same table on both sides *)
+(* same frames; function tables are not compared: the harness passes the same table on both sides,
+   and its functions satisfy the contract ([harness_funcs_ok], UnknownSound_Fn.v) *)
 Definition frame_relb (fa fc : frame) : bool :=
   match fvars fa, fvars fc with
   | None, None => true
@@ -66,11 +71,13 @@ Definition frame_relb (fa fc : frame) : bool :=
 Definition ctx_relb (ca cc : ctx) : bool := all2 frame_relb ca cc.
 
 Lemma ctx_relb_sound ca cc : ctx_relb ca cc = true ->
-  Forall2 (fun fa fc => ffuncs fa = ffuncs fc) ca cc -> ctx_rel ca cc.
+  Forall2 (fun fa fc => ffuncs fa = ffuncs fc /\ (forall fs, ffuncs fa = Some fs -> Forall (fun p => fn_ok (snd p)) fs)) ca cc ->
+  ctx_rel ca cc.
 Proof.
-  unfold ctx_relb, ctx_rel. intros H F. apply all2_Forall2 in H.
-  revert H. induction F as [|fa fc ca cc Hf _ IH]; intros H; inversion H; subst; constructor; [|apply IH; assumption].
-  split; [|exact Hf]. unfold frame_relb in H3.
+  unfold ctx_relb. intros H F. apply all2_Forall2 in H.
+  revert H. induction F as [|fa fc ca cc [Hf Hk] _ IH]; intros H; inversion H; subst; [apply CR_nil|].
+  apply CR_cons; [|apply IH; assumption].
+  split; [|split; [exact Hf|exact Hk]]. unfold frame_relb in H3.
   destruct (fvars fa) as [va|], (fvars fc) as [vc|]; try discriminate; [|exact I].
   apply all2_Forall2 in H3. eapply Forall2_impl_In; [|exact H3].
   intros p q _ _ Hpq. unfold var_relb in Hpq. unfold var_rel.
